@@ -17,11 +17,16 @@ func TestDirectConsumerOnceInOrder(t *testing.T) {
 	rapid.Check(t, func(rt *rapid.T) {
 		plan := wl.GenConsPlan(rt, wl.ConsFocus{Txn: rapid.Bool().Draw(rt, "withtxn")})
 		var o *wl.ConsObs
+		spun := false
 		bubble.Run(t, rt, func(e *bubble.Env) {
 			o = wl.RunCons(e, plan)
+			if spin, _ := e.Net.Spinning(); spin {
+				spun = true
+				return // >20000 requests at one virtual instant: not a listed property; counted, not judged
+			}
 			Check(rt, o)
 		})
-		nt := o.TruthStable && (o.FaultWhileBuffered || o.PartialTake || o.SessionErr || o.Moves > 0)
+		nt := !spun && o.TruthStable && (o.FaultWhileBuffered || o.PartialTake || o.SessionErr || o.Moves > 0)
 		ev.Case(o.Digest(), nt)
 		if o.FaultWhileBuffered {
 			ev.Class("fault-or-pause-while-buffered")
@@ -38,8 +43,11 @@ func TestDirectConsumerOnceInOrder(t *testing.T) {
 		if o.Moves > 0 {
 			ev.Class("leader-move")
 		}
-		if !o.TruthStable {
+		if !o.TruthStable && !spun {
 			ev.Class("inconclusive-log-kept-growing")
+		}
+		if spun {
+			ev.Class("inconclusive-request-spin")
 		}
 		if plan.Cfg.ReadCommitted {
 			ev.Class("read-committed")
